@@ -33,7 +33,11 @@ def _cases():
     from .viewparam import merging_views_of_parameters
     fires = lambda rs: any((not r.get("ok", False)) if isinstance(r, dict) else True for r in rs)
     from .dropped import discarded_results, inplace_on_parameter_views, vacuous_any_of_self_comparison
+    from .args import init_copies_of_other_formals
     return [
+        ("G44 constructor keeps a sibling's formal under this name", lambda f: any(src and t.attr not in src for t, _, src in init_copies_of_other_formals(f)), "__init__",
+         "class M:\n    def __init__(self, max_time_mask, max_freq_mask):\n        self.max_time_mask = max_time_mask\n        self.max_freq_mask = max_time_mask\n",
+         "class M:\n    def __init__(self, max_time_mask, max_freq_mask, params):\n        self.max_time_mask = max_time_mask\n        self.max_freq_mask = argcheck.is_int(max_freq_mask)\n        self.params = params.sub\n"),
         ("G43 in-place operation on a view of a caller's tensor", lambda f: bool(inplace_on_parameter_views(f)), "f",
          "def f(x, slices):\n    start = slices[..., 0].contiguous()\n    s = start.clamp_min_(0)\n    return x[s]\n",
          "def f(x, slices):\n    start = slices[..., 0].contiguous()\n    s = start.clamp_min(0)\n    lo = (-start).clamp_min_(0)\n    return x[s], lo\n"),
